@@ -17,7 +17,7 @@
     statement: without the transposition the stored state is `(q^(2k))ᵀ`);
   * `gibbs_trace_one`, `gibbs_hermitian`, `gibbs_normalised_hermitian`;
   * `compute_fresh`, `compute_idempotent`, `compute_repeat`: repeated `compute()`;
-  * ties to the regenerated source: `coeff_is_cell`, `coeff_sum_tiling`,
+  * ties to the regenerated source: `coeff_is_cell`, `coeff_sum_tiling`, `guarded_term_inactive`,
     `infl_formulas_are_model`, `gibbs_ops_symmetric`, `total_imaginary_time`,
     `source_orientation`;
   * `eta_fallback_accurate`, `corr_fallback_accurate`, `matsubara_eta_integrand`: the regenerated
@@ -36,6 +36,7 @@ import Mathlib.Algebra.Star.Basic
 import Mathlib.Algebra.BigOperators.Field
 import Mathlib.Tactic.FieldSimp
 import Mathlib.Tactic.LinearCombination
+import Mathlib.Analysis.Complex.Exponential
 
 namespace OQuPyVerif.Props.C11
 open Finset BigOperators OQuPyVerif.PathSum OQuPyVerif.Gibbs OQuPyVerif.EtaCells
@@ -260,6 +261,30 @@ theorem coeff_sum_tiling {A : Type} [AddCommGroup A] (e : ℤ → A) (n : ℕ) :
   simp only [coeff_is_cell]
   exact tiling e n
 
+/-- **The guarded extra term of `correlation_2d_integral` never fires for a Gibbs
+    coefficient.**  Some shapes (`c2d_offset_guarded_shapes`: the upper triangle) carry an
+    additional term under `if time_1 != 0.0:` which is not part of `c2d_*_terms`.  Whenever
+    `coeffs(k)` asks for such a shape, the `time_1` it hands over (`k * dt` in binary64) is
+    exactly `0.0`, so the guard is false and `genCoeff` describes the whole branch. -/
+theorem guarded_term_inactive (dt : Rat) (k : Int) :
+    (if coeff_first_shape k then coeff_shape_then else coeff_shape_else)
+        ∈ c2d_offset_guarded_shapes →
+      c2d_offset_guard (coeff_time1 dt k) = false := by
+  unfold coeff_first_shape
+  by_cases hk : k = 0
+  · subst hk
+    intro _
+    have h0 : coeff_time1 dt 0 = 0 := by
+      unfold coeff_time1 OQuPyVerif.FloatModel.fmul OQuPyVerif.FloatModel.ofInt
+      simp [OQuPyVerif.FloatModel.rnd]
+    rw [h0]
+    unfold c2d_offset_guard
+    simp [Rat.mkRat_eq_div]
+  · have : (k == (0 : Int)) = false := by simpa using hk
+    simp only [this, Bool.false_eq_true, ite_false]
+    intro h
+    exact absurd h (by decide)
+
 /-- the backend's factor formulas (both branches of `_influence_tensor` and the self factor of
     `initialise`) are the model's `gInfl`; the tensor for MPS distance `k` uses
     `coefficients(k+1)` -/
@@ -314,18 +339,23 @@ variable {F : Type} [Field F]
 
 /-- **The large-frequency fall-back is uniformly accurate.**  `eta_function` switches to a
     simplified integrand once `E(−ω/T)` is below machine epsilon; the simplified integrand
-    differs from the full one by `E(−ω/T)` times a bounded expression — for real AND for
-    imaginary (`matsubara=True`) time arguments, where `E(−(ω/T − iτω)) = e^{−(β−τ)ω}` is not
-    small.  (Fails to type-check for a fall-back that drops that term.) -/
-theorem eta_fallback_accurate (E : F → F) (iUnit J w tau T : F) (hz : 1 - E (-w / T) ≠ 0) :
+    differs from the full one (written in the source with `expm1(x) = exp(x) − 1`) by `E(−ω/T)`
+    times a bounded expression — for real AND for imaginary (`matsubara=True`) time arguments,
+    where `E(−(ω/T − iτω)) = e^{−(β−τ)ω}` is not small.  Uses that `exp` is a homomorphism.
+    (Fails to type-check for a fall-back that drops that term.) -/
+theorem eta_fallback_accurate (E : F → F) (hE : ∀ a b, E (a + b) = E a * E b)
+    (iUnit J w tau T : F) (hz : 1 - E (-w / T) ≠ 0) :
     eta_integrand_full E iUnit J w tau T - eta_integrand_fallback E iUnit J w tau T
       = eta_guard E iUnit J w tau T *
         (J / w^2 * ((E (-iUnit * tau * w) + E (-(w / T - iUnit * tau * w)) - 2) / (1 - E (-w / T)))) := by
   unfold eta_integrand_full eta_integrand_fallback eta_guard
   have h1 : (-iUnit) * w * tau = -iUnit * tau * w := by ring
-  rw [h1]
+  have hy : E (-(w / T - iUnit * tau * w)) = E (-w / T) * E (iUnit * tau * w) := by
+    rw [← hE]; congr 1; ring
+  have hd : -(E (-w / T) - 1) = 1 - E (-w / T) := by ring
+  rw [h1, hy, hd]
   generalize E (-iUnit * tau * w) = x at *
-  generalize E (-(w / T - iUnit * tau * w)) = y at *
+  generalize E (iUnit * tau * w) = x' at *
   generalize E (-w / T) = z at *
   field_simp
   ring
@@ -349,7 +379,8 @@ theorem corr_fallback_accurate (E : F → F) (iUnit J w tau T : F) (hz : 1 - E (
     integral (`eta_sign`), so `η(β) − η(0) = −β ∫ J(ω)/ω dω` as far as the quadrature is exact:
     by `coeff_sum_tiling` and `gibbs_commuting_exp` the Boltzmann weights carry the energies
     shifted by `ops1_a·ops0_a·∫J/ω = −o_a²·(reorganisation energy)`. -/
-theorem matsubara_eta_integrand (E : F → F) (hE0 : E 0 = 1) (iUnit : F) (hi : iUnit * iUnit = -1)
+theorem matsubara_eta_integrand (E : F → F) (hE0 : E 0 = 1) (hE : ∀ a b, E (a + b) = E a * E b)
+    (iUnit : F) (hi : iUnit * iUnit = -1)
     (J w T : F) (hw : w ≠ 0) (hT : T ≠ 0) (hz : 1 - E (-w / T) ≠ 0) :
     eta_integrand_full E iUnit J w (-iUnit * (1 / T)) T = (1 / T) * J / w ∧
     eta_integrand_full E iUnit J w (-iUnit * 0) T = 0 ∧ eta_sign = -1 := by
@@ -361,20 +392,21 @@ theorem matsubara_eta_integrand (E : F → F) (hE0 : E 0 = 1) (iUnit : F) (hi : 
     have h1 : (-iUnit) * (-iUnit * (1 / T)) * w = -w / T := by
       have : (-iUnit) * (-iUnit * (1 / T)) * w = -(iUnit * (-iUnit * (1 / T)) * w) := by ring
       rw [this, h3]; ring
-    have h2 : -(w / T - iUnit * (-iUnit * (1 / T)) * w) = 0 := by
-      rw [h3]; ring
-    rw [h1, h2, h3, hE0]
-    generalize E (-w / T) = z at *
+    have hinv : E (-w / T) * E (w / T) = 1 := by
+      rw [← hE, ← hE0]; congr 1; ring
+    have hz' : -(E (-w / T) - 1) ≠ 0 := by
+      intro h; apply hz; rw [← h]; ring
+    rw [h1, h3]
+    have hnum : (E (-w / T) - 1) + E (-w / T) * (E (w / T) - 1) = 0 := by
+      rw [mul_sub, hinv]; ring
+    rw [hnum]
     field_simp
     ring
   · unfold eta_integrand_full
     have h1 : (-iUnit) * (-iUnit * 0) * w = 0 := by ring
-    have h2 : -(w / T - iUnit * (-iUnit * 0) * w) = -w / T := by ring
     have h3 : iUnit * (-iUnit * 0) * w = 0 := by ring
-    rw [h1, h2, h3, hE0]
-    generalize E (-w / T) = z at *
-    field_simp
-    ring
+    rw [h1, h3, hE0]
+    simp
 
 end Thermal
 
@@ -411,7 +443,20 @@ example : (∀ j a b : ℕ, star ((fun _ a b : ℕ => ((a + b : ℕ) : ℚ)) j a
 example : ((2 : ℕ) : ℚ) = (4 : ℕ) / 2 ∧ (4 : ℚ)^(2*2) = 2^(2*4) := by norm_num
 /-- `2 ≤ n` -/
 example : (2 : Int) ≤ 5 := by decide
-/-- thermal integrand hypotheses over ℚ with `E = fun _ => 1/2`-like values: `1 − E(−ω/T) ≠ 0` -/
-example : (1 : ℚ) - (fun _ : ℚ => (1/2 : ℚ)) (-(3:ℚ) / 2) ≠ 0 := by norm_num
+/-- the thermal-integrand hypotheses hold jointly over ℂ: `E = Complex.exp` is a homomorphism with
+    `E 0 = 1`, `i·i = −1`, and `1 − E(−ω/T) ≠ 0` at `ω = T = 1` -/
+example : Complex.exp 0 = 1 ∧ (∀ a b : ℂ, Complex.exp (a + b) = Complex.exp a * Complex.exp b) ∧
+    Complex.I * Complex.I = -1 ∧ (1 : ℂ) ≠ 0 ∧ 1 - Complex.exp (-(1 : ℂ) / 1) ≠ 0 := by
+  refine ⟨Complex.exp_zero, Complex.exp_add, Complex.I_mul_I, one_ne_zero, ?_⟩
+  intro h
+  have h1 : Complex.exp (-(1 : ℂ) / 1) = 1 := (sub_eq_zero.mp h).symm
+  have h2 : ((Real.exp (-1) : ℝ) : ℂ) = 1 := by
+    rw [Complex.ofReal_exp]; simpa using h1
+  have h3 : Real.exp (-1) = 1 := by exact_mod_cast h2
+  have h4 : Real.exp (-1) < 1 := Real.exp_lt_one_iff.mpr (by norm_num)
+  linarith
+/-- the guard obligation is not vacuous: for `k = 0` the selected shape IS a guarded one -/
+example : (if coeff_first_shape 0 then coeff_shape_then else coeff_shape_else)
+    ∈ c2d_offset_guarded_shapes := by decide
 
 end OQuPyVerif.Props.C11
